@@ -7,11 +7,19 @@ proof:   EpsieProps/C13.lean over EpsieModel/Adapt.lean + the clock of EpsieMode
          C13_fixed_kernel, C13_own_history_only, ...)
 tie:     suite `adapt` (harness/adapt.py + lean/DriverAdapt.lean): all 16 adaptive classes and
          their sub-variants under forced and free histories, start steps, jump intervals,
-         windows 10-60; which steps change the scale, in which direction (exact), values 1e-9
-search:  forced always-accepted / always-rejected / alternating / random histories on the real
-         classes: direction of every update from its own record, net direction of one-sided
-         histories, bit-identical scale attributes after the window (Sivia-Skilling exempt),
-         no change without a jump, no dependence on another chain's history
+         windows 10-60; which steps change the scale, in which direction (exact), values 1e-9.
+         Every class also with its OPTIONAL constructor arguments at non-default values (variants
+         `o:*`: initial_std per parameter and not proportional to the prior widths, target_rate,
+         adaptation_decay, cov / max_cov / jump_interval_duration, cov0 / shuffle_rate, radec /
+         degs; n >= 2 parameters), led by long runs of rejections.  The model's constants (clock,
+         target rate, prior widths, decay, initial widths, cap) are those the case CONFIGURES,
+         not read back from the object.
+search:  forced always-accepted / always-rejected / alternating / random / long-rejection-run
+         histories on the real classes, default and non-default optional arguments: direction of
+         every update from its own record (target rate as configured), net direction of one-sided
+         histories, bit-identical scale attributes after the window (Sivia-Skilling exempt), no
+         change outside the window computed from the configured start step / duration / jump
+         interval, no change without a jump, no dependence on another chain's history
 """
 import json
 
@@ -33,20 +41,26 @@ def run(chk, tier, proof_ok):
     c['search'] = dict(scov, oracle='direction of each update from the step\'s own record (accepted flag / acceptance '
                        'ratio vs target / rate so far vs target); net direction of always-accepted and always-rejected '
                        'histories; bit-identical scale attributes for every iteration after the window (all but '
-                       'Sivia-Skilling); no change at iterations without a jump; interleaving with a foreign chain')
+                       'Sivia-Skilling); no change outside the window computed from the configured start step, '
+                       'duration and jump interval; no change at iterations without a jump; interleaving with a '
+                       'foreign chain')
     c['evaluations'] = cov['steps'] + scov['steps']
     c['distinct_nontrivial'] = cov['cases'] - cov['divergences'] + scov['runs']
     c['rule'] = ('one evaluation = one real Chain.step() whose adaptive state was read and checked; a case/run is '
                  'non-trivial when its window was entered (every generated case runs past the end of its window); '
-                 'distinct = distinct (family, variant, history, start step, jump interval, window, seed) tuples '
-                 'generated from VERIF_SEED')
+                 'distinct = distinct (family, variant, optional arguments, history, start step, jump interval, '
+                 'window, seed) tuples generated from VERIF_SEED; the cases with non-default optional constructor '
+                 'arguments are counted under optional_arguments (correspondence and search)')
+    c['optional_arguments'] = {'correspondence': cov.get('optional_arguments'), 'search': scov.get('optional_arguments')}
     c['branches'] = cov['branches']
     chk.assumptions += [
         'float evaluation of dk**-0.6 - T**-0.6, dk**-decay - 0.1, exp(+-1/n) has the sign / the enclosure the exact '
         'value has (checked by DriverAdapt on every oracle value used: algebraic identity (g+c)^5 dk^3 = 1, Taylor '
         'enclosure of exp)',
         'for the Andrieu-Thoms and eigenvector families "widens/narrows" is about the scale factor lambda '
-        '(DESIGN 2.8); adaptation_decay other than the default is outside the quantifier',
+        '(DESIGN 2.8); a user supplied adaptation_decay is inside the quantifier as long as it is <= the default '
+        '1/log10(T) (C13_gain_pos_veitch_decay; the cases use 0.45-0.95 of the default); a larger one makes the gain '
+        'negative before the window ends and is outside it',
     ]
     for key, (text, case) in sorted(findings.items()):
         chk.violation(key, text, {'case': case, 'search': 'direction',
